@@ -240,6 +240,20 @@ class BoundsAnalysis:
                     continue
                 if isinstance(e, ast.Constant):
                     return True, 'overwritten by constant %s' % a[2]
+                # p = g(p): the facts that follow bound the MAPPED value.  Unless g is a sanitiser (subscript of an
+                # exact-length array, coord_to_index, ..) the original argument must have been bounded before the mapping.
+                f_ = getattr(fm, 'func_info', None)
+                if f_ is not None and self.tainted_names_in(f_, e, {p}):
+                    st = [n for n in ast.walk(f_.node) if isinstance(n, (ast.Assign, ast.AugAssign)) and
+                          U(n.targets[0] if isinstance(n, ast.Assign) else n.target) == p and U(n.value) == a[2]]
+                    if st:
+                        pre = fm.facts_at(st[0]) or frozenset()
+                        pre = frozenset(x for x in pre if not (x[0] == 'def' and x[1] == p))
+                        lo0 = self._lower(p, pre, axis, 0)
+                        up0 = self._upper(p, pre, fm, axis, kind, 0)
+                        if not (lo0 and up0):
+                            return False, ('the argument is re-mapped by `%s` before any bounds check: the later check applies to '
+                                           'the mapped value, so out-of-range (e.g. negative) ordinals can be mapped into range' % a[2][:60])
         lo = self._lower(p, facts, axis, 0)
         up = self._upper(p, facts, fm, axis, kind, 0)
         if lo and up:
@@ -345,6 +359,28 @@ class BoundsAnalysis:
         res = {}
         for p, names in taint.items():
             fails, oks, inh, nsinks = [], [], [], 0
+            # p = g(p) before any check: later guards bound the mapped value, not the argument
+            for st in ast.walk(f.node):
+                if isinstance(st, (ast.Assign, ast.AugAssign)):
+                    tg = st.targets[0] if isinstance(st, ast.Assign) else st.target
+                    if isinstance(tg, ast.Name) and tg.id == p and (isinstance(st, ast.AugAssign) or
+                                                                    self.tainted_names_in(f, st.value, {p})):
+                        if isinstance(st.value, ast.IfExp) and any(U(x) == p for x in (st.value.body, st.value.orelse)):
+                            continue       # p = default if p is None else p
+                        paths = fm.paths_at(st)
+                        if not paths:
+                            continue
+                        axis = RF.axis_of_name(p, mode)
+                        kind = param_kind(p)
+                        for facts in paths:
+                            if ('is', p, 'None') in facts:
+                                continue
+                            if not (self._lower(p, facts, axis, 0) and self._upper(p, facts, fm, axis, kind, 0)):
+                                nsinks += 1
+                                fails.append((st.value, 're-map', 'the argument is re-mapped by `%s` before any bounds check: the later '
+                                              'check applies to the mapped value, so out-of-range (e.g. negative) values can be '
+                                              'mapped into range' % U(st.value)[:60], False))
+                                break
             for (node, skind, args, targets, relaxing) in sinks:
                 hit = [(a, q) for (a, q) in args if self.tainted_names_in(f, a, names)]
                 if not hit:
